@@ -89,6 +89,7 @@ type Gen struct {
 	entryR   string   // reachability of the entry block ("true" for the function itself)
 	inlining []string // keys of functions currently being inlined
 	ninline  int
+	rangeSeen map[string]bool
 }
 
 type retInfo struct {
